@@ -1089,6 +1089,73 @@ func genSpans(rng *lib.Rand, n int) [][4]int32 {
 	return out
 }
 
+// layeredBox builds a span set and a voxel box for the span/box intersection queries: the box
+// covers block layers z0 .. z0+layers-1, block rows y0 .. y0+1 and block columns x0 .. x0+1.
+// Layer number hit (or none when hit < 0) holds a span that meets the box; every other layer of
+// the box, and one layer below and above it, holds spans that miss it, chosen by the bits of decoy:
+//
+//	1 past the box in y with an x range that reaches the box     2 past the box in x, y inside
+//	4 before the box in y                                         8 before the box in x, y inside
+//
+// The spans come out in the stored order (z, then y, then x0), so an answer that depends on a later
+// layer after an earlier layer's spans past the box in y or x is reached deterministically.
+// shape picks how the hit span meets the box: 0 inside, 1 touching the low x corner at the high y
+// row, 2 touching the high x column at the low y row, 3 covering the whole row.
+func layeredBox(bs []int32, org [3]int32, layers, hit, decoy, shape int, in [3]int32) (spans [][4]int32, mn, mx []int32) {
+	x0, y0, z0 := org[0], org[1], org[2]
+	miss := func(zc int32) {
+		if decoy&1 != 0 {
+			spans = append(spans, [4]int32{zc, y0 + 2, x0 - 1, x0 + 1}, [4]int32{zc, y0 + 3, x0, x0})
+		}
+		if decoy&2 != 0 {
+			spans = append(spans, [4]int32{zc, y0, x0 + 2, x0 + 4}, [4]int32{zc, y0 + 1, x0 + 3, x0 + 3})
+		}
+		if decoy&4 != 0 {
+			spans = append(spans, [4]int32{zc, y0 - 1, x0, x0 + 1})
+		}
+		if decoy&8 != 0 {
+			spans = append(spans, [4]int32{zc, y0 + 1, x0 - 3, x0 - 1})
+		}
+	}
+	for l := -1; l <= layers; l++ {
+		zc := z0 + int32(l)
+		if l < 0 || l >= layers {
+			// outside the box in z: spans that would meet it in x and y
+			spans = append(spans, [4]int32{zc, y0, x0, x0 + 1})
+			continue
+		}
+		miss(zc)
+		if l == hit {
+			switch shape {
+			case 0:
+				spans = append(spans, [4]int32{zc, y0, x0 + 1, x0 + 1})
+			case 1:
+				spans = append(spans, [4]int32{zc, y0 + 1, x0 - 2, x0})
+			case 2:
+				spans = append(spans, [4]int32{zc, y0, x0 + 1, x0 + 5})
+			default:
+				spans = append(spans, [4]int32{zc, y0, x0 - 2, x0 + 3})
+			}
+		}
+	}
+	sort.SliceStable(spans, func(a, b int) bool { return dvid.Span(spans[a]).Less(dvid.Span(spans[b])) })
+	mn = []int32{x0*bs[0] + in[0], y0*bs[1] + in[1], z0*bs[2] + in[2]}
+	mx = []int32{(x0+1)*bs[0] + in[0], (y0+1)*bs[1] + in[1], (z0+int32(layers)-1)*bs[2] + in[2]}
+	return
+}
+
+func hitName(hit, layers int) string {
+	switch {
+	case hit < 0:
+		return "none"
+	case hit == 0:
+		return "first"
+	case hit == layers-1:
+		return "last"
+	}
+	return "middle"
+}
+
 func i32p(v int32) *int32 { return &v }
 
 func main() {
@@ -1373,6 +1440,45 @@ func main() {
 			}
 			dispatch(jcase{Kind: "mask", Size: bs, Off: off, Q: size, Spans: spans})
 		}
+	}
+	// ---- boxes over several block layers: the only span that meets the box lies in the first / a
+	// middle / the last layer (or in none), the other layers hold spans past or before the box in y or x ----
+	for _, bs := range [][]int32{{4, 2, 3}, {8, 8, 8}} {
+		for ci, org := range [][3]int32{{2, 1, 0}, {-3, -2, -2}} {
+			for layers := 2; layers <= 3; layers++ {
+				for hit := -1; hit < layers; hit++ {
+					for _, decoy := range []int{1, 2, 4, 8, 3, 15} {
+						shape := (hit + layers + decoy + ci) % 4
+						in := [3]int32{int32((decoy + ci) % int(bs[0])), int32((hit + 1) % int(bs[1])), int32(layers % int(bs[2]))}
+						spans, mn, mx := layeredBox(bs, org, layers, hit, decoy, shape, in)
+						run.Count(fmt.Sprintf("boundsinside:layers=%d:hit=%s", layers, hitName(hit, layers)))
+						dispatch(jcase{Kind: "boundsinside", P: mn, Q: mx, Size: bs, Spans: spans})
+					}
+				}
+			}
+		}
+	}
+	for i := 0; i < 24*mul; i++ {
+		bs := []int32{int32(rng.Pick(4, 8, 32)), int32(rng.Pick(4, 8, 2)), int32(rng.Pick(4, 8, 3))}
+		org := [3]int32{int32(rng.Intn(9)) - 4, int32(rng.Intn(7)) - 3, int32(rng.Intn(7)) - 3}
+		layers := 2 + rng.Intn(3)
+		hit := rng.Intn(layers+1) - 1
+		in := [3]int32{int32(rng.Intn(int(bs[0]))), int32(rng.Intn(int(bs[1]))), int32(rng.Intn(int(bs[2])))}
+		spans, mn, mx := layeredBox(bs, org, layers, hit, 1+rng.Intn(15), rng.Intn(4), in)
+		if rng.Chance(0.3) && len(spans) > 2 { // drop a span: layers without any span
+			k := rng.Intn(len(spans))
+			spans = append(append([][4]int32{}, spans[:k]...), spans[k+1:]...)
+		}
+		run.Count(fmt.Sprintf("boundsinside:layers=%d:hit=%s", layers, hitName(hit, layers)))
+		dispatch(jcase{Kind: "boundsinside", P: mn, Q: mx, Size: bs, Spans: spans})
+	}
+	// the same layouts through the HTTP mask (block size small: the answer is one byte per voxel)
+	for k, hit := range []int{-1, 0, 1, 2} {
+		bs := []int32{2, 2, 2}
+		org := [3]int32{int32(1 - 2*(k%2)), 0, int32(-(k % 2))}
+		spans, mn, mx := layeredBox(bs, org, 3, hit, []int{1, 3, 15, 9}[k], k, [3]int32{1, 0, 1})
+		size := []int32{mx[0] - mn[0] + 1, mx[1] - mn[1] + 1, mx[2] - mn[2] + 1}
+		dispatch(jcase{Kind: "mask", Size: bs, Off: mn, Q: size, Spans: spans})
 	}
 	for i := 0; i < 30*mul; i++ {
 		bs := []int32{int32(rng.Pick(4, 8, 32)), int32(rng.Pick(4, 8, 2)), int32(rng.Pick(4, 8, 3))}
